@@ -101,7 +101,9 @@ def confirm(name, out, demo_name, demo_flags, meta):
         meta["patch_applies"] = rc == 0
         rc, o = sh("cargo test --offline 2>&1 | grep -E '^test result|FAILED|^error' | head -5", cwd=wt)
         meta["existing_tests_with_change"] = o.strip().split("\n")
-        meta["existing_tests_pass_with_change"] = ("FAILED" not in o) and ("error" not in o) and ("test result: ok. 59 passed" in o)
+        m59 = re.search(r"test result: ok\. (\d+) passed", o)
+        # (a change may add unit tests of its own; the 59 existing ones are unedited and must pass)
+        meta["existing_tests_pass_with_change"] = ("FAILED" not in o) and ("error" not in o) and bool(m59) and int(m59.group(1)) >= 59
         rcs = []
         for feat in ("--no-default-features --features alloc", "--no-default-features"):
             r = sh(f"cargo build --offline --lib {feat} 2>&1 | tail -2", cwd=wt)
